@@ -122,6 +122,16 @@ def run(pid, tier, seed):
             import topo_checks
             groups.append((dict(topo_checks.CFG), [topo_checks.removal_scenario("node-removed-in-flight-%d" % k) for k in range(2)], "removal", None))
             specs["removal"] = dict(spec="TopoTrace", cfgfile="TopoTrace.cfg", par=1)
+        if pid == "C10":
+            # the same order requirement with the node not reading: the proxy's outbound buffer for the node spills
+            # beyond its static part and drains piecewise while the client keeps sending (8 KB socket buffers)
+            import raw_checks
+            bp = [raw_checks.backend_backpressure_scenario("bp-backend-1")]
+            if not q:
+                bp += [raw_checks.backend_backpressure_scenario("bp-backend-2", nbig=30, bigsize=9000, rounds=8, chunk=25000),
+                       raw_checks.backend_backpressure_scenario("bp-backend-3", nbig=6, bigsize=60000, rounds=6, chunk=70000)]
+            groups.append((dict(raw_checks.BP_CFG), bp, "bp", None))
+            specs["bp"] = dict(spec="RawTrace", cfgfile="RawTrace.cfg", par=2)
         viol = []
         groups = [g for g in groups if g[1]]
 
@@ -158,6 +168,8 @@ def run(pid, tier, seed):
             if len(cov["samples"]) < 3:
                 cov["samples"].append({"source": tag, "cfg": cfg, "scenario": scs[0]})
             for v in r["viol"]:
+                if tag == "bp" and (v["code"].startswith("request-") or v["code"] == "malformed-request-forwarded"):
+                    v = dict(v, prop="C10", code="request-stream-to-node-corrupted:" + v["code"])
                 if v["prop"] == pid or v["prop"] == "DEAD":
                     viol.append(v)
                 else:
